@@ -284,8 +284,20 @@ def _shortcut_by_scenario(prog, rep, sc, ds):
                         # local boolean such as left_is_vec = isinstance(current.left, VectorVariable)
                         vals = [x for x, _s in ex._eval(v, ex._fork(state))] if not isinstance(v, ast.Call) or dotted(v.func) == "isinstance" else [None]
                         state["bools"][tg.id] = vals[0] if len(vals) == 1 else None
+            # work-list growth written as `work += (a, b)` / `work.extend((a, b))`
+            if isinstance(st, ast.AugAssign) and isinstance(st.op, ast.Add) and isinstance(st.value, (ast.Tuple, ast.List)):
+                for e_ in st.value.elts:
+                    for sl in slot_kinds:
+                        if src(e_) == f"{subj}.{sl}" or state["alias"].get(src(e_)) == sl:
+                            state["events"].append(("push", sl))
             for c in ast.walk(st):
-                if isinstance(c, ast.Call) and isinstance(c.func, ast.Attribute) and c.func.attr in ("append", "extend") and c.args:
+                if isinstance(c, ast.Call) and isinstance(c.func, ast.Attribute) and c.func.attr in ("append", "extend", "appendleft", "extendleft") and c.args:
+                    items = list(c.args[0].elts) if isinstance(c.args[0], (ast.Tuple, ast.List)) and c.func.attr.startswith("extend") else [c.args[0]]
+                    for it_ in items:
+                      for sl in slot_kinds:
+                        if src(it_).startswith(f"{subj}.{sl}") or state["alias"].get(src(it_)) == sl:
+                            state["events"].append(("push", sl))
+                if False:
                     for sl in slot_kinds:
                         if src(c.args[0]).startswith(f"{subj}.{sl}"):
                             state["events"].append(("push", sl))
@@ -353,6 +365,9 @@ def _shortcut_by_scenario(prog, rep, sc, ds):
                         pushed = {x for e, x in st_["events"] if e == "push"}
                         if pushed != set(slots) or not goes_on(term):
                             bad = pushed
+                    if bad is not None and not bad:
+                        rep.undecided(f"{construct} ({desc}): no child is seen to be scheduled in a form this rule reads (append / extend / += of the operand slots); coverage of the children not decided")
+                        continue
                     rep.ob("R16.3", construct, bad is None, f"pushes all children {sorted(slots)}" if bad is None else f"pushes only {sorted(bad)} of {sorted(slots)}: a second vector or scalar under the other child goes unnoticed and the shortcut returns too few variables", loc=loc, detail=det)
                     continue
                 accept = all_vv and same
